@@ -27,9 +27,15 @@ INAPPLICABLE = {"ha": ["-twopl", "-n3", "-t2", "-llq", "-luq", "-lt"],
                 "spa": []}
 
 
-def to_argv(d):
+def to_argv(d, order=0):
+    """order 0: canonical flag order; 1: reversed; 2: rotated by 5."""
+    keys = list(ORDER)
+    if order == 1:
+        keys = keys[::-1]
+    elif order == 2:
+        keys = keys[5:] + keys[:5]
     out = []
-    for k in ORDER:
+    for k in keys:
         v = d.get(k)
         if v is None or v is False:
             continue
@@ -147,19 +153,19 @@ def perturbations(d):
     return out
 
 
-def run(d, tag):
-    argv = to_argv(d)
+def run(d, tag, order=0):
+    argv = to_argv(d, order)
     res = rngenv.run_generator(argv, Env([]), tag=tag)
     return argv, res
 
 
-def judge_legal(d, tally):
-    argv, res = run(d, "c15")
+def judge_legal(d, tally, order=0):
+    argv, res = run(d, "c15", order)
     tally.inc("evaluations")
     tally.inc("legal_vectors")
     if res["exc"] is not None:
         fp = "legal-rejected:" + res["exc"]["fingerprint"] + ":" + d["-mp"]
-        tally.violation({"args": d, "argv": argv, "fingerprint": fp, "legal": True,
+        tally.violation({"args": d, "argv": argv, "fingerprint": fp, "legal": True, "order": order,
                          "what": "documented legal argument set %r was not accepted: %s %s" % (
                              argv, res["exc"]["fingerprint"], res["exc"].get("message", "")[-160:])})
         return
@@ -170,8 +176,8 @@ def judge_legal(d, tally):
                          "what": "accepted %r but wrote %r" % (argv, sorted(res["files"] or {}))})
 
 
-def judge_illegal(desc, d, tally):
-    argv, res = run(d, "c15")
+def judge_illegal(desc, d, tally, order=0):
+    argv, res = run(d, "c15", order)
     tally.inc("evaluations")
     tally.inc("illegal_vectors")
     tally.inc("nontrivial")
@@ -180,12 +186,13 @@ def judge_illegal(desc, d, tally):
     if desc.startswith("inapplicable-added") and desc.endswith(("=0", "=0.0")):
         kind += "(default-valued)"
     if exc is None:
-        tally.violation({"args": d, "argv": argv, "fault": desc, "legal": False,
-                         "fingerprint": "illegal-accepted:%s:%s" % (d["-mp"], kind),
+        tally.violation({"args": d, "argv": argv, "fault": desc, "legal": False, "order": order,
+                         "fingerprint": "illegal-accepted:%s:%s%s" % (
+                             d["-mp"], kind, "" if order == 0 else ":flag-order-%d" % order),
                          "what": "invalid argument set (%s) %r was accepted" % (desc, argv)})
         return
     if exc["type"] != "SystemExit" or exc.get("code") != 2:
-        tally.violation({"args": d, "argv": argv, "fault": desc, "legal": False,
+        tally.violation({"args": d, "argv": argv, "fault": desc, "legal": False, "order": order,
                          "fingerprint": "illegal-not-usage-error:%s:%s" % (kind, exc["fingerprint"]),
                          "what": "invalid argument set (%s) %r: expected a usage error, got %s %s" % (
                              desc, argv, exc["fingerprint"], exc.get("message", "")[-160:])})
@@ -197,13 +204,14 @@ def judge_illegal(desc, d, tally):
 
 
 def work(item, tally):
-    kind, desc, d = item
+    kind, desc, d = item[:3]
+    order = item[3] if len(item) > 3 else 0
     if kind == "legal":
-        judge_legal(d, tally)
+        judge_legal(d, tally, order)
         if tally.c["evaluations"] % 3000 == 1:
             tally.sample({"legal": to_argv(d)})
     else:
-        judge_illegal(desc, d, tally)
+        judge_illegal(desc, d, tally, order)
         if tally.c["evaluations"] % 3000 == 1:
             tally.sample({"illegal": desc, "argv": to_argv(d)})
 
@@ -220,6 +228,14 @@ def main(tier):
     for d in base_for_faults:
         for desc, e in perturbations(d):
             items.append(("illegal", desc, e))
+    # the same verdicts must hold whatever the order of flags on the command line
+    small = [d for d in base_for_faults if d["-n1"] <= 2 and (d.get("-n2") or 1) <= 2 and
+             (d.get("-n3") or 1) <= 2]
+    for order in (1, 2):
+        for d in small:
+            items.append(("legal", "", d, order))
+            for desc, e in perturbations(d):
+                items.append(("illegal", desc, e, order))
     tally = pool.run(work, items, chunksize=200)
     c = tally.c
     coverage = {
@@ -248,9 +264,9 @@ def replay(path):
         p = json.load(f)
     t = Tally()
     if p.get("legal"):
-        judge_legal(p["args"], t)
+        judge_legal(p["args"], t, p.get("order", 0))
     else:
-        judge_illegal(p.get("fault", "x:y"), p["args"], t)
+        judge_illegal(p.get("fault", "x:y"), p["args"], t, p.get("order", 0))
     print(p["argv"])
     for v in t.violations:
         print(v["fingerprint"], v["what"])
